@@ -52,6 +52,7 @@ def fam_prefix(rng, sid0, n):
         for nm in (a, b, third):
             for k in range(1, len(nm) + 1):
                 typed.add(nm[:k])
+        typed.add("")                                   # empty name: AT=..., AT?...
         for t in sorted(typed):
             for sfx in rng.sample(suffixes, 6):
                 t2 = t.lower() if rng.random() < 0.3 else t
@@ -116,6 +117,25 @@ def fam_lanes_exact(rng, sid0, n):
             sc.feed(("AT" + names[idx] + "\n").encode())
             sc.settle(20000)
         out.append(sig(sc, N, acap))
+    return out
+
+
+def fam_lanes_wide(rng, sid0, n):
+    """Hundreds of commands sharing a prefix: candidate counts around the widths a counter could have (255, 256, 257)."""
+    out = []
+    for i in range(n):
+        ncand = [255, 256, 257, 258, 129, 130][i % 6]
+        names = ["+P%03d" % k for k in range(ncand)]
+        others = ["Z", "+Q1"]
+        order = rng.choice(["cand-first", "cand-last", "cand-mid"])
+        table = names + others if order == "cand-first" else others + names if order == "cand-last" else others[:1] + names + others[1:]
+        cmds = [Cmd(nm, hx=True, hr=rng.random() < 0.1) for nm in table]
+        half = (len(table) + 3) // 4 + rng.choice([0, 1, 8])
+        sc = Scenario(sid0 + i, cmds, qcap=1, bufsize=2 * half, grain="compact", meta={"family": "fam_lanes_wide"})
+        lines = [b"AT+P\n", b"AT+P0\n", b"AT+P00\n", b"AT+P000\n", ("AT+P%03d\n" % (ncand - 1)).encode(), b"AT+P25\n", b"AT+P=1\n", b"AT+\n", b"ATZ\n", b"AT+Q\n"]
+        rng.shuffle(lines)
+        line_block(sc, lines[:6], 60000)
+        out.append(sig(sc, ncand, order))
     return out
 
 
@@ -346,7 +366,7 @@ def fam_bounds(rng, sid0, n):
             bufsize, usize = 2 * acap + rng.choice([0, 1]), -1
             ucap = acap
         else:
-            ucap = rng.choice([0, 1, 2, 3, acap, 5, 12])
+            ucap = rng.choice([0, 1, 2, 3, acap, 5, 12, 24, 48, 100])
             bufsize, usize = acap, ucap
         # names short enough that something fits
         cw = Cmd("+W", hw=True)                                             # raw write handler
@@ -568,7 +588,26 @@ def fam_codes(rng, sid0, n):
                 if cu.vars and cu.vars[0].vr and rng.random() < 0.5:
                     sc.vs(1, 0, "r", ret=rng.choice([0, 1, -1]))
                 sc.trig(1, kind)
+                if rng.random() < 0.6:
+                    # the event is processed while a command line of some kind is in flight
+                    sc.hs(0, rng.choice("wrxt"), "c", ret=rng.choice([R_OK, R_DATA_OK]))
+                    sc.feed(rng.choice([b"AT+C=?\n", b"AT+C?\n", b"AT+C\n", b"AT+C=1\r\n"]))
+                    if rng.random() < 0.5:
+                        sc.wrs(gen.rand_wsched(rng, 80))
                 sc.settle(6000)
+        # every terminal code of an event handler while a line of every kind is in flight (and vice versa)
+        for _ in range(3):
+            ek = rng.choice("rt")
+            sc.hs(1, ek, "e", ret=rng.choice(term))
+            ck = rng.choice("wrxt")
+            sc.hs(0, ck, "c", ret=rng.choice([R_DATA_NEXT, R_NEXT]))
+            sc.hs(0, ck, "c", ret=rng.choice(term))
+            sc.trig(1, ek)
+            sc.feed({"w": b"AT+C=1\n", "r": b"AT+C?\n", "x": b"AT+C\n", "t": b"AT+C=?\n"}[ck])
+            sc.svc(rng.randint(0, 12))
+            if rng.random() < 0.5:
+                sc.trig(1, ek)
+            sc.settle(6000)
         out.append(sig(sc, seqs, bool(cmd.vars), bool(cu.vars)))
     return out
 
@@ -815,7 +854,7 @@ def conf_scenario(rng, sid, key, variant):
              vars=[Var(UINT, 2, RW, "c", vw=r2.random() < 0.5, mem=b"\x10\x00"), Var(STRING, 6, RW, "s", mem=b"ab\0\0\0\0")])
     cL = Cmd("+L", hx=True)
     cI = Cmd("I", hw=True, implicit=True)
-    sc = Scenario(sid, [cC, cL, cI], qcap=1, bufsize=r2.choice([48, 64]), grain="compact", meta={"family": "fam_conf", "conf_key": key, "variant": variant})
+    sc = Scenario(sid, [cC, cL, cI], qcap=1, bufsize=r2.choice([96, 128, 64]), grain="compact", meta={"family": "fam_conf", "conf_key": key, "variant": variant})
     sc.note("conf_%d_%d" % (key, variant))
     sc.hs(1, "x", ret=R_LIST)
     sc.hs(1, "x", ret=R_LIST)
@@ -853,4 +892,66 @@ def fam_conf(rng, sid0, n):
             if len(out) >= n:
                 break
             out.append(sig(conf_scenario(rng, sid0 + len(out), key, variant), key, variant))
+    return out
+
+
+# --------------------------------------------------------------------------- C20: literal history independence (sequence vs. each line alone)
+
+def fam_hist_twins(rng, sid0, n):
+    """Scenario 0 of a key feeds k lines in one piece; scenarios 1..k feed each line alone to a fresh parser.  The driver compares
+    result codes (with their newline style) and handler invocations: the sequence run must equal the concatenation of the single runs.
+    The table is chosen so that these do not depend on variable values."""
+    out = []
+    while len(out) < n:
+        key = rng.randrange(1 << 30)
+        names = rng.choice([["+TA", "+TB", "Z"], ["+A", "+AB", "I"], ["+ONE", "+TEN", "+TEA", "Q"]])
+        k = rng.randint(2, 5)
+        lines = []
+        for _ in range(k):
+            nm = rng.choice(names)
+            typed = nm[:rng.randint(1, len(nm))] if rng.random() < 0.7 else nm
+            sfx = rng.choice(["", "?", "?", "?", "=1", "=?", "=x", "?x", "=", "1", ""])
+            lines.append(("AT" + typed + sfx + rng.choice(["\n", "\r\n"])).encode())
+        if rng.random() < 0.3:
+            lines[rng.randrange(k)] = rng.choice([b"AT\n", b"\r\n", b"xx\n", b"AT+\r\n", b"A\n"])
+        fill = rng.choice([0, 0, 0xA5])
+        bufsize = rng.choice([32, 64])
+
+        def mk(sid, variant, feed):
+            cmds = [Cmd(nm, hw=True, hr=True, hx=True, ht=True, implicit=(nm == "I"), vars=[Var(UINT, 1, RW, "v", mem=b"\x05")] if nm != "Z" else []) for nm in names]
+            for c in cmds:
+                if c.implicit:
+                    c.hr = c.hx = c.ht = False
+            sc = Scenario(sid, cmds, qcap=1, bufsize=bufsize, fill=fill, grain="compact", meta={"family": "fam_hist_twins"})
+            sc.note("hist_%d_%d" % (key, variant))
+            sc.feed(feed).settle(60000)
+            return sc
+        grp = [mk(sid0 + len(out), 0, b"".join(lines))]
+        for i, l in enumerate(lines):
+            grp.append(mk(sid0 + len(out) + 1 + i, i + 1, l))
+        for s in grp:
+            out.append(sig(s, key, len(lines)))
+    return out
+
+
+# --------------------------------------------------------------------------- C18: input cut at every byte, busy sampled at quiescence
+
+def fam_cut(rng, sid0, n):
+    out = []
+    for i in range(n):
+        names = rng.choice([["+SET", "+SEND", "+X"], ["+TA", "+TB", "Z"], ["+A", "+AB", "+B"], ["Q1", "Q12", "+M", "W"]])
+        cmds = [all_handlers(nm, vars=[Var(UINT, 1, RW, "x", mem=b"\x05")] if rng.random() < 0.5 else []) for nm in names]
+        sc = Scenario(sid0 + i, cmds, qcap=1, bufsize=rng.choice([32, 64]), grain="step", auto="b", meta={"family": "fam_cut"})
+        for _ in range(rng.choice([6, 10])):
+            nm = rng.choice(names)
+            typed = nm[:rng.randint(1, len(nm))]
+            line = ("AT" + typed + rng.choice(["", "?", "=1", "=?", "=x,y", "!", "?x"]) + rng.choice(["\n", "\r\n"])).encode()
+            if rng.random() < 0.15:
+                line = rng.choice([b"hello\n", b"AX\r\n", b"AT+SET!\n", b"\r\n", b"A\n"])
+            cut = rng.randint(1, len(line) - 1) if len(line) > 1 else 0
+            sc.feed(line[:cut]).settle(5000)
+            sc.q("busy")
+            sc.feed(line[cut:]).settle(5000)
+            sc.q("busy")
+        out.append(sig(sc, tuple(names)))
     return out
